@@ -1,8 +1,8 @@
 """C02 — well-formed positive responses decode to exactly the values the server encoded."""
-from .. import core
+from .. import core, extract
 from ..core import Suite
 
-LEAN_TARGETS = ['Uds.Props.C02']
+LEAN_TARGETS = ['Uds.Props.C02', 'Uds.Tie.Groups']
 ASSUMPTIONS = [
     'ISO 14229-1:2020 positive-response layouts as written in harness/declib.py (reference encoder in Python) and Uds/Spec/Response.lean (reference encoder in Lean)',
     'DID / IO codecs: decode is user code, modelled as the identity on the raw bytes; dumps compare the raw bytes',
@@ -13,6 +13,11 @@ RULE = ('valid suite: for every family of client calls (simple services, Read/Wr
         'sizes 1..8, extended-data sizes incl. per-DTC dict) are encoded by the reference encoder and fed to the real client; the decoded data must equal the semantic value, and the Lean '
         'model must decode the same bytes to the same dump. distinct = distinct (call line, reply); non-trivial = all')
 
+
+
+def generate(ctx):
+    from .. import extract
+    extract.generate(['Groups'])
 
 def suite_valid(ctx):
     from .. import declib
